@@ -43,10 +43,10 @@ package socketace
 //@   property C04, C06
 //@   safe
 //@   requires conn != nil && conn.Reader != nil && conn.Connection != nil
-//@   modifies conn.*, conn.Reader.*, cc.secure, cc.securityTech, heap(crypto/tls.Config.ServerName)
+//@   modifies conn.*, conn.Reader.*, cc.secure, cc.securityTech, heap(crypto/tls.Config.ServerName), G_closes(conn), G_isclosed(conn)
 //@   ensures err == nil ==> result != nil
 //@   ensures err == nil && shouldStartTls ==> cc.secure && cc.securityTech == SecurityTls        :offered_starttls_means_tls_or_no_session
-//@   ensures err == nil && !shouldStartTls ==> cc.secure == old(cc.secure) && cc.securityTech == old(cc.securityTech)
+//@   ensures err == nil && !shouldStartTls ==> cc.secure == old(cc.secure) && spec_sameslice(cc.securityTech, old(cc.securityTech))
 
 //@ func NewClientConnection
 //@   property C05
@@ -139,11 +139,27 @@ package socketace
 //@   modifies c.*, sar.Proto, sar.StatusCode, sar.Status, sar.Headers
 //@   ensures err == nil ==> sar.Headers != nil                                   :headers_available_after_success
 
+//@ func NewServerConnection
+//@   property C06, C04
+//@   safe
+//@   ensures err == nil ==> result != nil && result.Connection != nil                                 :session_only_with_connection
+//@   ensures err != nil ==> result == nil                                                              :no_session_on_error
+//@   property C04
+//@   ensures err == nil && secure ==> result.secure && result.securityTech == SecurityUnderlying
+//@   ensures err == nil && !secure && result.secure ==> result.securityTech == SecurityTls             :upgraded_means_tls
+//@   ensures err == nil && !secure && !result.secure ==> result.securityTech == SecurityNone          :plaintext_reported_as_insecure
+
+//@ pred memberStr(l []string, s string) := exists k :: 0 <= k && k < len(l) && l[k] == s
 //@ func (sc *ServerConnection) negotiateVersion
 //@   property C06
 //@   safe
 //@   terminates
 //@   pure
+//@   ensures result == "" || memberStr(SupportedProtocolVersions, result)       :only_a_supported_version
+//@   loop 1 vars negotiatedVersion string
+//@   loop 1 invariant negotiatedVersion == ""
+//@   loop 2 vars negotiatedVersion string
+//@   loop 2 invariant negotiatedVersion == ""
 
 //@ func (sc *ServerConnection) handshake
 //@   property C06, C04
@@ -151,14 +167,22 @@ package socketace
 //@   requires conn != nil && conn.Reader != nil && conn.Connection != nil
 //@   requires !sc.supportTls
 //@   ensures sc.supportTls ==> sc.manager != nil && !sc.secure                   :starttls_offered_only_in_clear_with_manager
-//@   ensures sc.secure == old(sc.secure) && sc.securityTech == old(sc.securityTech) && sc.manager == old(sc.manager)
+//@   ensures sc.secure == old(sc.secure) && spec_sameslice(sc.securityTech, old(sc.securityTech)) && sc.manager == old(sc.manager)
+//@   ensures err == nil ==> sc.negotiatedVersion != ""                                                      :session_only_with_a_negotiated_version
+//@   callsite negotiateVersion#1 (v string) assert v == "" || memberStr(SupportedProtocolVersions, v)          :only_a_supported_version_is_adopted
 
 //@ func (sc *ServerConnection) upgrade
 //@   property C06, C04
 //@   safe
 //@   requires conn != nil && conn.Reader != nil && conn.Connection != nil
 //@   requires sc.supportTls ==> sc.manager != nil && !sc.secure
+//@   modifies conn.*, conn.Reader.*, sc.secure, sc.securityTech, G_closes(conn), G_isclosed(conn)
+//@   ensures err == nil && sc.secure == old(sc.secure) ==> spec_sameslice(sc.securityTech, old(sc.securityTech))   :status_changes_only_by_upgrade
+//@   ensures old(sc.secure) ==> sc.secure
 //@   ensures err == nil ==> result != nil                                                              :session_only_with_connection
+//@   callsite NewNamedConnection#1 (nc *streams.NamedConnection, request *Request, response *Response) assert request.Method == "GET" && response.StatusCode == 101    :session_only_after_a_get_upgrade_answered_101
+//@   callsite NewNamedConnection#2 (nc *streams.NamedConnection, request *Request, response *Response) assert request.Method == "GET" && response.StatusCode == 101    :session_only_after_a_get_upgrade_answered_101
+//@   callsite NewNamedConnection#3 (nc *streams.NamedConnection, request *Request, response *Response) assert request.Method == "GET" && response.StatusCode == 101    :session_only_after_a_get_upgrade_answered_101
 //@   ensures err == nil && sc.secure && !old(sc.secure) ==> sc.securityTech == SecurityTls            :upgraded_means_tls
 
 //@ func (cc *ClientConnection) handshake
